@@ -498,7 +498,9 @@ bool StepScript(ScriptExecutionEnvironment& env, CScript::const_iterator& pc, CS
                 case OP_MOD:
                 case OP_LSHIFT:
                 case OP_RSHIFT:
-                    return StepExtended(env, pc, local_script);
+                    // (the size limits after the switch apply to these operations like to any other)
+                    if (!StepExtended(env, pc, local_script)) return false;
+                    break;
                 //
                 // Push value
                 //
